@@ -165,6 +165,11 @@ fn rn_stmts(v: &mut Vec<Stmt>) {
                 rn_expr(e);
             }
             Stmt::Data(_) | Stmt::Return | Stmt::OnErrorGoto(None) | Stmt::Resume(_) | Stmt::End | Stmt::ExitProc | Stmt::Raw(_) => {}
+            Stmt::Opaque { var, .. } => {
+                if let Some(l) = var {
+                    rn_lv(l);
+                }
+            }
         }
     }
 }
